@@ -706,11 +706,17 @@ void Exec::resolve_oom() {
     complete_ok = false;
     first = v;
   }
-  if (complete_ok) { oom_outcome = "complete"; counters["oom_outcome_complete"]++; return; }
+  if (complete_ok) {
+    oom_outcome = "complete";
+    counters["oom_outcome_complete"]++;
+    if (pending_choices.empty() && md.open_choices.empty()) check_state_whitebox("after completing under an allocation failure");
+    return;
+  }
   if (k < 0) throw first;                             // fault-free pass: no excuse
   // second world: nothing happened, requester gets NoMemory (if it is still there to be told)
   md = md_before;
   pending_choices.clear();
+  if (answered_before.size() == answered.size()) answered = answered_before;
   next_sent = next_sent_before;
   for (size_t i = 0; i < w.clients.size() && i < cursor_before.size(); i++) w.clients[i].got_checked = cursor_before[i];
   if (oom_client >= 0 && oom_op_valid) {
@@ -749,6 +755,23 @@ void Exec::resolve_oom() {
   }
   oom_outcome = "nomemory";
   counters["oom_outcome_nomemory"]++;
+  check_state_whitebox("after a NoMemory failure");
+}
+
+// What the bus holds per connection must be what the chosen world says: match rules and names are
+// also counted directly (a rule added twice or a leftover queue entry is invisible to message traffic).
+void Exec::check_state_whitebox(const char *when) {
+  for (size_t i = 0; i < w.clients.size() && i < md.conns.size(); i++) {
+    const bm::Conn &k = md.conns[i];
+    if (!k.alive || k.monitor || k.unchecked) continue;
+    int rules = w.rule_count((int)i), names = w.names_owned((int)i);
+    if (rules >= 0 && rules != (int)k.rules.size())
+      fail("oracle:C14:rule-count", "%s c%zu holds %d match rules in the bus, %zu in the admissible state", when, i, rules, k.rules.size());
+    long held = k.hello ? 1 : 0;
+    for (auto &kv : md.names) for (auto &q : kv.second) if (q.c == (int)i) held++;
+    if (names >= 0 && k.hello && names != held)
+      fail("oracle:C14:names-held", "%s c%zu is recorded by the bus as holding %d names, %ld in the admissible state", when, i, names, held);
+  }
 }
 
 void Exec::check_point(bool final) {
@@ -828,7 +851,7 @@ core::RunResult Exec::run() {
     setup();
     for (auto &s : plan.steps) {
       tr.ev("step %s %d", s.t.c_str(), s.a);
-      if (s.t != "oombus" && s.t != "oomcheck" && s.t != "oomretry" && s.t != "check" && s.t != "bus" && s.t != "drain" && s.t != "deliver") { oom_op = s; oom_op_valid = true; }
+      if (s.t != "oombus" && s.t != "oomcheck" && s.t != "oomretry" && s.t != "check" && s.t != "bus" && s.t != "drain" && s.t != "deliver") { oom_op = s; oom_op_valid = true; answered_before = answered; }
       step(s);
     }
     check_point(true);
